@@ -29,6 +29,7 @@ CONSTANTS
   Focus = TRUE
   Record = FALSE
   ReadOnly = FALSE
+  AckSplit = FALSE
   RM = FALSE
   Slots = 1
   RmUuids = {1, 2}
